@@ -823,7 +823,11 @@ def _tensorclass(cls: T, *, frozen, shadow: bool) -> T:
         if len(args) > 0:
             tensorclass_instance = args[0]
         else:
-            tensorclass_instance = kwargs.get("input", kwargs["tensors"])
+            # (not kwargs.get("input", kwargs["tensors"]): the default would be evaluated,
+            # and raise KeyError, also when "input" is given)
+            tensorclass_instance = (
+                kwargs["input"] if "input" in kwargs else kwargs["tensors"]
+            )
         if isinstance(tensorclass_instance, (tuple, list)):
             tensorclass_instance = tensorclass_instance[0]
         if not _is_tensorclass(type(tensorclass_instance)):
@@ -3387,7 +3391,11 @@ class NonTensorData:
         if len(args) > 0:
             tensorclass_instance = args[0]
         else:
-            tensorclass_instance = kwargs.get("input", kwargs["tensors"])
+            # (not kwargs.get("input", kwargs["tensors"]): the default would be evaluated,
+            # and raise KeyError, also when "input" is given)
+            tensorclass_instance = (
+                kwargs["input"] if "input" in kwargs else kwargs["tensors"]
+            )
         if isinstance(tensorclass_instance, (tuple, list)):
             tensorclass_instance = tensorclass_instance[0]
         if not escape_conversion:
